@@ -614,6 +614,19 @@ class Gen(object):
                 v = r.choice([c for c in (0, 1, 2) if c not in counters])
                 a, b, c = self.bounds(vars_ + counters)
                 body = self.guard() + self.block(depth - 1, vars_, counters + [v], in_sub, sub_level, ahead)
+                if vars_ and r.random() < 0.15:
+                    # the end value (or the step) is a plain VARIABLE which the body reassigns: both are evaluated once,
+                    # at FOR, and the loop must not see the new value
+                    u = r.choice(vars_)
+                    lo, n = r.choice([0, 1, 2, -1]), r.choice([2, 3, 4])
+                    if r.random() < 0.7:
+                        nodes.append(('L', u, lit(lo + n)))
+                        a, b, c = lit(lo), var(u), r.choice([None, None, lit(1)])
+                        body = body[:2] + [('P', var(v)), ('L', u, lit(r.choice([lo, lo + 1, lo - 1, lo + n + 3])))] + body[2:]
+                    else:
+                        nodes.append(('L', u, lit(r.choice([1, 2]))))
+                        a, b, c = lit(lo), lit(lo + 2 * n), var(u)
+                        body = body[:2] + [('P', var(v)), ('L', u, lit(r.choice([3, 1, -1, 0])))] + body[2:]
                 form = r.choice(['named', 'named', 'bare'])
                 if form == 'named' and len(counters) < 2 and r.random() < 0.35:
                     # the body ends with a loop: candidates for the shared NEXT j,i (often an empty inner loop)
